@@ -1,6 +1,6 @@
 from logging import getLogger
 from pdb import Pdb
-from types import FrameType
+from types import FrameType, TracebackType
 from typing import IO, Any, Callable, ContextManager
 
 from nextline.spawned.exc import NotOnTraceCall
@@ -52,6 +52,25 @@ class CustomizedPdb(Pdb):
         except NotOnTraceCall:
             logger = getLogger(__name__)
             logger.exception('')
+
+    def get_stack(
+        self, f: FrameType | None, t: TracebackType | None
+    ) -> tuple[list[tuple[FrameType, int]], int]:
+        '''Override Bdb.get_stack() to select the frame of the event.
+
+        Bdb.get_stack() selects the innermost frame of the traceback instead if
+        it does not find self.botframe among the callers of the frame. This
+        happens in an asyncio task after its first suspension, for botframe is
+        the frame in the event loop that ran the first step of the task. The
+        `next`, `until`, and `return` commands at an exception raised in a
+        callee would then step in the dead frame of the callee and the task
+        would never be prompted again.
+        '''
+        stack, i = super().get_stack(f, t)
+        for index, (frame, _) in enumerate(stack):
+            if frame is f:
+                return stack, index
+        return stack, i
 
     def stop_here(self, frame: FrameType) -> bool:
         '''Override Bdb.stop_here() to accept a frame without a line number.
